@@ -617,6 +617,10 @@ fn damage(rng: &mut StdRng, b: &[u8]) -> Vec<u8> {
         return vec![rng.gen()];
     }
     for _ in 0..rng.gen_range(1..4) {
+        if v.is_empty() {
+            v.push(rng.gen());
+            continue;
+        }
         match rng.gen_range(0..6) {
             0 => {
                 let n = rng.gen_range(0..v.len());
